@@ -30,8 +30,8 @@ PROPS = {
             "explanation": "writer: every statement row, read by the spec's delta rules in the writer's final tables, denotes the input terms under the premise that every enabled table has room for the statement (encode_iri_indices ... encode_spo/encode_triple, LRU stability by ghost marks; both integrations' term encoders); reader: decode_iri/literal/statement/triple/quad and iter_rows compute exactly the spec decoding in the reader's tables; the tables are coupled for all histories (C05 lemmas) and the lemma statement_roundtrip composes writer postcondition and reader specification into 'read back == written' for flat triples; buffered rows keep their order into frames (list cases of triple/quad/to_stream_frame). Bounded only: nested quoted triples, the graph slot of quads end to end, byte-level entry points.",
             "note": "Proved per function for all inputs under the listed library models; composition across entry rows of unknown number is by the rows_account fold (uninterpreted for opaque segments); quads' graph-slot denotation, nested quoted triples and entry points are bounded."},
     "C02": {"level": "other", "technique": TECH_M, "assumptions": ENCODER + [A_PROTO, A_RDFLIB],
-            "explanation": "proof: RDFLibTermEncoder.encode_spo is verified against the same contract as the generic term encoder (terms denoted by the ids written, entry rows account for table changes), encode_graph against its rdflib-specific contract (default-graph id, URIRef, BNode), and the statement-level encoders encode_spo/encode_triple are re-verified with the rdflib encoder as receiver; reader: all Decoder contracts (spec decoding, exact raise conditions, refusal of row kinds the physical type forbids, iter_rows per-row clauses, Decoder.__init__) are verified once more with rdflib's adapters, plus RDFLibGraphsAdapter.triple/graph_start/graph_end and rdflib's parse_*_stream; writer stream layer: rdflib's triples_stream_frames (Graph, every graph of a Dataset, generator of triples) and namespace_declarations are verified under the same clauses as the generic ones, TripleStream.triple also with the rdflib encoder; bounded: rdflib Graph/Dataset round trips through the plugin (stores, namespace manager, rdflib's own literal normalisation as expectation), the QUADS/GRAPHS stream_frames of the rdflib integration.",
-            "note": "rdflib itself is modelled only at term level (A-RDFLIB: constructors build term values, URIRef/BNode taken by their string value); Graph/Dataset are abstract containers; the QUADS/GRAPHS stream_frames of the rdflib integration, parse_jelly_* entry points and the plugin are bounded only."},
+            "explanation": "proof: RDFLibTermEncoder.encode_spo is verified against the same contract as the generic term encoder (terms denoted by the ids written, entry rows account for table changes), encode_graph against its rdflib-specific contract (default-graph id, URIRef, BNode), and the statement-level encoders encode_spo/encode_triple are re-verified with the rdflib encoder as receiver; reader: all Decoder contracts (spec decoding, exact raise conditions, refusal of row kinds the physical type forbids, iter_rows per-row clauses, Decoder.__init__) are verified once more with rdflib's adapters, plus RDFLibGraphsAdapter.triple/graph_start/graph_end and rdflib's parse_*_stream; writer stream layer: rdflib's triples/quads/graphs_stream_frames (Graph, Dataset and generators as abstract containers) and namespace_declarations are verified under the same clauses as the generic ones, TripleStream.triple / QuadStream.quad / GraphStream.graph / encode_quad also with the rdflib encoder, Stream.for_rdflib and guess_stream size the encoder as the header announces, RDFLibJellySerializer.serialize writes every frame once, in order, with the configured framing; bounded: rdflib Graph/Dataset round trips through the plugin (stores, namespace manager, rdflib's own literal normalisation as expectation), the generator-of-quads branch of graphs_stream_frames.",
+            "note": "rdflib itself is modelled only at term level (A-RDFLIB: constructors build term values, URIRef/BNode taken by their string value); Graph/Dataset are abstract containers; parse_jelly_* entry points, the plugin registration and the Dataset-building branch of graphs_stream_frames are bounded only."},
     "C03": {"level": "proof", "technique": TECH_P, "assumptions": ENCODER + [A_PROTO, A_ABS],
             "explanation": "writer refines the Jelly spec tables: each entry row is a valid spec assignment and the rows account exactly for the table changes, every id written lies within the table and resolves by the delta rules to the intended string (C01 premise), entry rows precede the statement row, quoted triples are complete; the options row is written exactly once, on first use, with the configured values (Stream.enroll) and the stream is enrolled before any statement (stream_frames invariants); graphs are bracketed (GraphStream.graph list cases); namespace rows arise only from Stream.namespace_declaration. Bounded: real bytes re-read by the independent wire codec + spec state machine.",
             "note": "Library models A-OD, A-STR, A-PROTO assumed; nested quoted-triple denotation and row-kind vs physical-type at whole-stream level are bounded."},
@@ -42,8 +42,8 @@ PROPS = {
             "explanation": "inductive invariant over all lookup histories, all sizes and key alphabets: constructors establish and every Lookup/LookupEncoder/LookupDecoder operation preserves the coupling with the Jelly spec table; mirror lemmas compose writer and reader contracts (the reader resolves exactly the writer's key)",
             "note": "LRU victim choice is left nondeterministic; integers mathematical."},
     "C06": {"level": "other", "technique": TECH_M, "assumptions": COMMON + [A_PROTO, A_UL, A_ABS],
-            "explanation": "proof (generic integration): for every flow class and every input length, when triples/quads/graphs_stream_frames is exhausted nothing is left buffered (final flush), every frame taken out of a flow has been yielded (linear-resource obligations), statements' rows stay buffered in order until emitted; infer_flow/Stream.__init__ construct the specified flow and valid header types; type pairs validated with exact raise conditions. The rdflib integration's triples_stream_frames is verified under the same clauses. Bounded: the configuration lattice through real bytes incl. the rdflib plugin, rdflib QUADS/GRAPHS stream_frames, *_to_file wrappers and sink.serialize.",
-            "note": "rdflib's quads/graphs stream_frames and the file wrappers are bounded only."},
+            "explanation": "proof (generic integration): for every flow class and every input length, when triples/quads/graphs_stream_frames is exhausted nothing is left buffered (final flush), every frame taken out of a flow has been yielded (linear-resource obligations), statements' rows stay buffered in order until emitted; infer_flow/Stream.__init__ construct the specified flow and valid header types; type pairs validated with exact raise conditions. The rdflib integration's three stream_frames are verified under the same clauses, and RDFLibJellySerializer.serialize writes every frame it obtains exactly once with the configured framing (A-IO output model). Bounded: the configuration lattice through real bytes, *_to_file wrappers and sink.serialize.",
+            "note": "the generic file wrappers are bounded only."},
     "C07": {"level": "other", "technique": TECH_M, "assumptions": COMMON + [A_PROTO, A_ABS, A_CTX],
             "explanation": "proof: iter_rows keeps no per-frame state (frame is only read; state lives in the decoder), parse_*_stream give exactly one lazy iterable per frame, all bound to one decoder, with that frame's metadata current; grouped flows emit only at graph/dataset end and bounded flows only on size; bounded: re-partitioning of real streams at sampled cut vectors, grouped sink counts, rdflib.",
             "note": "The 'flat parse depends only on the row sequence' claim follows from the iter_rows contract (a frame is nothing but its rows) but the entry points that chain frames are bounded."},
